@@ -51,7 +51,8 @@ type pcView struct {
 type unsupported struct{ msg string }
 
 type Verifier struct {
-	pendingFree []freeBinding // captured variables of a closure about to be called under its contract
+	inlineSubst         map[*types.TypeParam]types.Type // set by callFunc for the next inline()
+	pendingFree         []freeBinding                   // captured variables of a closure about to be called under its contract
 	e                   *Engine
 	fn                  *ssa.Function
 	fc                  *FuncContract
@@ -74,6 +75,7 @@ type Verifier struct {
 }
 
 func (e *Engine) NewVerifier(fn *ssa.Function, fc *FuncContract) *Verifier {
+	e.curFn = fn
 	return &Verifier{e: e, fn: fn, fc: fc, key: funcKey(fn), counters: map[string]int{}, reachRet: map[ssa.Instruction][][]*Term{}, inputs: map[string]Value{}, obKeySeen: map[string]int{}}
 }
 
@@ -214,8 +216,19 @@ func (v *Verifier) Run() (err error) {
 		v.inputs[p.Name()] = val
 	}
 	var fvBlks []*Term
-	for _, fv := range fn.FreeVars {
+	for fvi, fv := range fn.FreeVars {
 		val := st.freshValue("fv_"+fv.Name(), fv.Type())
+		immutable := isPointerShaped(fv.Type()) && len(val.L) == 2 && capturedVarImmutable(fv)
+		if immutable {
+			// a variable nobody assigns after its initialisation and whose address is used for nothing
+			// but loads: it lives in a block of its own below every pointer value, so that no pointer
+			// of the environment aliases it, and it keeps its contents across every havoc
+			val = Value{T: fv.Type(), L: []*Term{IntLit(-6000000000 - int64(fvi)), IntLit(0)}}
+			if st.frozen == nil {
+				st.frozen = map[string]*Term{}
+			}
+			st.frozen[val.L[0].String()] = val.L[0]
+		}
 		fr.regs[fv] = val
 		// captured variables are always valid pointers
 		if isPointerShaped(fv.Type()) {
@@ -223,6 +236,16 @@ func (v *Verifier) Run() (err error) {
 			st.nonnil[val.L[0].String()] = true
 		}
 		v.inputs["fv:"+fv.Name()] = val
+		// the body of a range-over-func loop: go/ssa guards it with a state variable that is 0 while
+		// the loop is active; a well-behaved iterator calls the body only then (listed assumption)
+		if fn.Synthetic == "range-over-func yield" && strings.HasPrefix(fv.Name(), "jump$") && len(val.L) == 2 {
+			jv := st.loadAt(val.L[0], val.L[1], derefType(fv.Type()))
+			if len(jv.L) == 1 {
+				st.assume(Eq(jv.L[0], IntLit(0)))
+			}
+		}
+		// a captured variable that is assigned once (its initialisation in the function declaring it)
+		// and never again, by nobody, cannot change while this closure runs
 		// every captured variable is its own heap allocation of its own type
 		if isPointerShaped(fv.Type()) {
 			st.assume(Eq(v.e.btype(val.L[0]), v.e.allocTypeID(derefType(fv.Type()))))
@@ -237,6 +260,16 @@ func (v *Verifier) Run() (err error) {
 	}
 	if len(fvBlks) > 1 {
 		st.assume(Distinct(fvBlks...))
+	}
+	if v.fc != nil && len(v.fc.GhostLocals) > 0 {
+		st.glocals = map[string]Value{}
+		for name, ts := range v.fc.GhostLocals {
+			t, err := v.e.resolveType(ts, v.fc.PkgPath)
+			if err != nil {
+				v.fail("ghostlocal %s: %v", name, err)
+			}
+			st.glocals[name] = v.e.zeroValue(t)
+		}
 	}
 	st.entry = st.snapshot()
 	v.entry = st.entry
@@ -353,6 +386,7 @@ func (v *Verifier) enterBlock(st *State, from, to *ssa.BasicBlock) {
 		if from != nil && li.Blocks[from] {
 			// back edge: invariant preserved
 			v.evalPhis(st, from, to)
+			v.checkBackedgeAts(st, li, to.Instrs[0].Pos())
 			v.assertLoopInv(st, li, "preserved")
 			v.endPath(st, to.Instrs[0], true)
 			return
@@ -523,6 +557,7 @@ func (v *Verifier) execFrom(st *State, b *ssa.BasicBlock, idx int) {
 	fr := st.top()
 	for i := idx; i < len(b.Instrs); i++ {
 		ins := b.Instrs[i]
+		v.e.lay.subst = fr.subst
 		switch ins := ins.(type) {
 		case *ssa.DebugRef:
 			continue
@@ -586,6 +621,9 @@ func (v *Verifier) execFrom(st *State, b *ssa.BasicBlock, idx int) {
 				off += v.e.lay.Size(tt.At(j).Type())
 			}
 			et := tt.At(ins.Index).Type()
+			if off+v.e.lay.Size(et) > len(tup.L) {
+				v.fail("extract #%d of %s: tuple value has %d slots, type %s needs %d (in %s, subst %v)", ins.Index, ins.Tuple.Name(), len(tup.L), tt, off+v.e.lay.Size(et), funcKey(fr.fn), fr.subst)
+			}
 			val := tup.sub(off, v.e.lay.Size(et), et)
 			if tup.it != nil {
 				val.it = tup.it
@@ -884,6 +922,9 @@ func (v *Verifier) doUnOp(st *State, u *ssa.UnOp) {
 			res = st.freshValue("recv", u.Type())
 		} else {
 			res = st.freshValue("recv", u.Type())
+		}
+		if ct, ok := u.X.Type().Underlying().(*types.Chan); ok {
+			v.assumeReceived(st, res.sub(0, v.e.lay.Size(ct.Elem()), ct.Elem()), ct.Elem())
 		}
 		v.setReg(st, u, res)
 	default:
@@ -1449,7 +1490,38 @@ func (v *Verifier) doSelect(st *State, s *ssa.Select) {
 			v.escapeValue(st, v.eval(st, cs.Send))
 		}
 	}
+	// received values: result tuple slots 2.. in the order of the receive cases
+	off := 2
+	for _, cs := range s.States {
+		if cs.Dir != types.RecvOnly {
+			continue
+		}
+		if ct, ok := cs.Chan.Type().Underlying().(*types.Chan); ok {
+			n := v.e.lay.Size(ct.Elem())
+			if off+n <= len(res.L) {
+				v.assumeReceived(st, res.sub(off, n, ct.Elem()), ct.Elem())
+			}
+			off += n
+		}
+	}
 	v.setReg(st, s, res)
+}
+
+// assumeReceived: "assume_received" clauses of a type contract are assumptions about every value of
+// that type that arrives over a channel (listed in the evidence).
+func (v *Verifier) assumeReceived(st *State, val Value, t types.Type) {
+	named, ok := t.(*types.Named)
+	if !ok || val.cell != nil {
+		return
+	}
+	tc := v.e.ct.Types[typeKey(named)]
+	if tc == nil || len(tc.Received) == 0 {
+		return
+	}
+	env := &Env{v: v, vars: map[string]Value{"self": val}, pkgPath: tc.PkgPath, old: st.entry}
+	for _, cl := range tc.Received {
+		st.assumeTagged(v.evalBoolIn(st, env, cl), cl.Label)
+	}
 }
 
 func (v *Verifier) doGo(st *State, g *ssa.Go) {
@@ -1518,6 +1590,13 @@ func (v *Verifier) doReturn(st *State, r *ssa.Return) {
 	}
 	if fr.depth > 0 {
 		// inlined callee: continue in caller
+		if os.Getenv("GOVC_DEBUG_INLINE") != "" {
+			fmt.Fprintf(os.Stderr, "   return from %s: %d slots, subst=%v laysubst=%v\n", funcKey(fr.fn), len(res.L), fr.subst, v.e.lay.subst)
+			for _, x := range r.Results {
+				xv := v.eval(st, x)
+				fmt.Fprintf(os.Stderr, "      %s : %s = %d slots\n", x.Name(), x.Type(), len(xv.L))
+			}
+		}
 		cont := fr.ret
 		st.frames = st.frames[:len(st.frames)-1]
 		cont(st, res)
@@ -1618,10 +1697,52 @@ func (v *Verifier) checkAts(st *State, c *ssa.Call) {
 		}
 		ab.seen = true
 		env := v.loopEnv(st)
+		// callarg0, callarg1, ...: the arguments of the call (receiver of an interface call excluded)
+		for i, a := range c.Call.Args {
+			if av, ok := v.tryEval(st, a); ok && av.cell == nil {
+				env.vars[fmt.Sprintf("callarg%d", i)] = av
+			}
+		}
+		// callrecv: the receiver of an interface method call
+		if c.Call.IsInvoke() {
+			if rv, ok := v.tryEval(st, c.Call.Value); ok && rv.cell == nil {
+				env.vars["callrecv"] = rv
+			}
+		}
+		for _, cl := range ab.AssumesHere {
+			st.assumeTagged(v.evalBoolIn(st, env, cl), cl.Label)
+		}
 		for i, cl := range ab.Asserts {
 			t := v.evalBoolIn(st, env, cl)
 			v.oblige(st, "assert", fmt.Sprintf("at %s#%d:%s", ab.Callee, ab.Ordinal, clauseLabel(cl, i)), t, c.Pos(), cl)
 			st.assumeTagged(t, cl.Label)
+		}
+		for _, ga := range ab.Ghosts {
+			v.ghostAssign(st, env, ga)
+		}
+	}
+}
+
+// checkBackedgeAts: "at backedge #n" blocks hold assertions about the iteration that just ended
+// (they may name variables declared inside the loop body, which a loop invariant cannot); they are
+// proved on every back edge of loop n.
+func (v *Verifier) checkBackedgeAts(st *State, li *LoopInfo, pos token.Pos) {
+	if v.fc == nil {
+		return
+	}
+	for _, ab := range v.fc.Ats {
+		if ab.Callee != "backedge" || ab.Ordinal != li.Ordinal {
+			continue
+		}
+		ab.seen = true
+		env := v.loopEnv(st)
+		for i, cl := range ab.Asserts {
+			t := v.evalBoolIn(st, env, cl)
+			v.oblige(st, "assert", fmt.Sprintf("at backedge#%d:%s", ab.Ordinal, clauseLabel(cl, i)), t, pos, cl)
+			st.assumeTagged(t, cl.Label)
+		}
+		for _, ga := range ab.Ghosts {
+			v.ghostAssign(st, env, ga)
 		}
 	}
 }
@@ -1660,6 +1781,81 @@ func (v *Verifier) escapeClosure(st *State, c *closureVal, depth int) {
 		}
 		st.escape(b)
 	}
+}
+
+// capturedVarImmutable: the variable behind fv (followed up to its declaration in an enclosing
+// function) is stored to exactly once there, and every closure capturing it only loads it. Its address
+// is never used in any other way, so no code - in particular no callee - can assign it.
+func capturedVarImmutable(fv *ssa.FreeVar) bool {
+	var root ssa.Value = fv
+	for depth := 0; depth < 8; depth++ {
+		f, ok := root.(*ssa.FreeVar)
+		if !ok {
+			break
+		}
+		fn := f.Parent()
+		if fn == nil || fn.Parent() == nil {
+			return false
+		}
+		idx := -1
+		for i, x := range fn.FreeVars {
+			if x == f {
+				idx = i
+			}
+		}
+		if idx < 0 {
+			return false
+		}
+		var next ssa.Value
+		for _, b := range fn.Parent().Blocks {
+			for _, ins := range b.Instrs {
+				if mc, ok := ins.(*ssa.MakeClosure); ok && mc.Fn == ssa.Value(fn) && idx < len(mc.Bindings) {
+					if next != nil && next != mc.Bindings[idx] {
+						return false
+					}
+					next = mc.Bindings[idx]
+				}
+			}
+		}
+		if next == nil {
+			return false
+		}
+		root = next
+	}
+	a, ok := root.(*ssa.Alloc)
+	if !ok || a.Referrers() == nil {
+		return false
+	}
+	stores := 0
+	for _, r := range *a.Referrers() {
+		switch r := r.(type) {
+		case *ssa.Store:
+			if r.Addr != ssa.Value(a) || r.Val == ssa.Value(a) {
+				return false
+			}
+			stores++
+		case *ssa.UnOp:
+			if r.Op != token.MUL {
+				return false
+			}
+		case *ssa.DebugRef:
+		case *ssa.MakeClosure:
+			fn, ok := r.Fn.(*ssa.Function)
+			if !ok {
+				return false
+			}
+			for i, b := range r.Bindings {
+				if b == ssa.Value(a) {
+					if i >= len(fn.FreeVars) || !freeVarReadOnly(fn.FreeVars[i], 0) {
+						return false
+					}
+				}
+			}
+		default:
+			return false
+		}
+	}
+	return stores <= 1
 }
 
 // freeVarReadOnly: every use of the captured variable is a load (or the capture by a nested
@@ -1773,7 +1969,7 @@ func (v *Verifier) assumeAfterCall(st *State, c *ssa.Call, res Value) {
 	}
 	name, _ := v.callOrdinal(c)
 	for _, ab := range v.fc.Ats {
-		if len(ab.Assumes) == 0 || !atMatches(name, ab.Callee) {
+		if (len(ab.Assumes) == 0 && len(ab.GhostsAfter) == 0) || !atMatches(name, ab.Callee) {
 			continue
 		}
 		n := 0
@@ -1795,6 +1991,9 @@ func (v *Verifier) assumeAfterCall(st *State, c *ssa.Call, res Value) {
 		v.bindResults(env, c.Call.Signature(), nil, res)
 		for _, cl := range ab.Assumes {
 			st.assumeTagged(v.evalBoolIn(st, env, cl), cl.Label)
+		}
+		for _, ga := range ab.GhostsAfter {
+			v.ghostAssign(st, env, ga)
 		}
 	}
 }
